@@ -121,7 +121,17 @@ pub fn interval_strategy(finite_max: f32) -> BoxedStrategy<(Fl, Fl)> {
         }
         (Fl(lo), Fl(hi.max(lo)))
     });
-    prop_oneof![18 => general, 2 => large_angle, 1 => special].boxed()
+    // widths within a few ulps of a multiple of pi/2: the periodic functions
+    // decide "contains a pole / an extremum" right at these widths (finding F23)
+    let period_width = (-8000i32..=8000, 1u32..=4, -3i32..=3).prop_map(move |(lo, m, nudge)| {
+        let lo = lo as f32 / 1000.0;
+        let mut hi = lo + m as f32 * std::f32::consts::FRAC_PI_2;
+        for _ in 0..nudge.abs() {
+            hi = if nudge > 0 { next_up(hi) } else { next_down(hi) };
+        }
+        (Fl(lo), Fl(hi.max(lo)))
+    });
+    prop_oneof![18 => general, 2 => large_angle, 1 => special, 1 => period_width].boxed()
 }
 
 pub fn sample_in(lo: f32, hi: f32, t: u16) -> f32 {
